@@ -1,19 +1,5 @@
 SPECIFICATION TraceSpec
 CONSTANT CheckAttrs = FALSE
 INVARIANT TraceEnd
-INVARIANT TI01
-INVARIANT TI05
-INVARIANT TI02bare
 INVARIANT TStack
-INVARIANT TI05body
-INVARIANT TI06
-INVARIANT TI07
-INVARIANT TI08
-INVARIANT TI09
-INVARIANT TI02
-INVARIANT TI03
-INVARIANT TI10
-INVARIANT TI11
-INVARIANT TI12
-INVARIANT TI07attrs
 CHECK_DEADLOCK FALSE
